@@ -439,7 +439,9 @@ func (rn *runner) genSpec(shape string) *tls.ClientHelloSpec {
 	pool := []func() tls.TLSExtension{
 		func() tls.TLSExtension { return &tls.SNIExtension{} },
 		func() tls.TLSExtension { return &tls.ExtendedMasterSecretExtension{} },
-		func() tls.TLSExtension { return &tls.UtlsGREASEExtension{} },
+		func() tls.TLSExtension { // GREASE extension bodies of several sizes (Chrome's second one carries one byte)
+			return &tls.UtlsGREASEExtension{Body: make([]byte, []int{0, 0, 1, 4}[r.Intn(4)])}
+		},
 		func() tls.TLSExtension { return &tls.SupportedPointsExtension{SupportedPoints: []byte{0}} },
 		func() tls.TLSExtension {
 			return &tls.SignatureAlgorithmsExtension{SupportedSignatureAlgorithms: []tls.SignatureScheme{tls.ECDSAWithP256AndSHA256, tls.PSSWithSHA256, tls.PKCS1WithSHA256, tls.ECDSAWithP384AndSHA384, tls.PSSWithSHA384, tls.PKCS1WithSHA384}}
@@ -485,7 +487,7 @@ func (rn *runner) genSpec(shape string) *tls.ClientHelloSpec {
 	case tls13:
 		s.Extensions = append(s.Extensions,
 			&tls.SupportedVersionsExtension{Versions: []uint16{g(r), tls.VersionTLS13, tls.VersionTLS12}},
-			&tls.KeyShareExtension{KeyShares: []tls.KeyShare{{Group: tls.CurveID(g(r)), Data: []byte{0}}, {Group: tls.X25519}}})
+			&tls.KeyShareExtension{KeyShares: rn.keyShares()})
 	case shape == "legacy-sv":
 		s.Extensions = append(s.Extensions, &tls.SupportedVersionsExtension{Versions: [][]uint16{
 			{tls.VersionTLS11, tls.VersionTLS10}, {tls.VersionTLS12, tls.VersionTLS11}, {tls.VersionTLS10}}[r.Intn(3)]})
@@ -502,6 +504,28 @@ func (rn *runner) genSpec(shape string) *tls.ClientHelloSpec {
 		s.Extensions = append(s.Extensions, fakePSK(r, 1+r.Intn(2)))
 	}
 	return s
+}
+
+// keyShares: key_share lists of several shapes; a GREASE share carries key_exchange bytes of several
+// sizes (BoringSSL sends one zero byte, other stacks need not), real shares are generated by ApplyPreset.
+func (rn *runner) keyShares() []tls.KeyShare {
+	r := rn.r
+	grease := func() tls.KeyShare {
+		d := make([]byte, []int{1, 1, 2, 3, 8, 32}[r.Intn(6)])
+		r.Read(d)
+		return tls.KeyShare{Group: tls.CurveID(extcoq.GreaseValue(r)), Data: d}
+	}
+	switch r.Intn(8) {
+	case 0:
+		return []tls.KeyShare{{Group: tls.X25519}}
+	case 1:
+		return []tls.KeyShare{{Group: tls.X25519}, grease()}
+	case 2:
+		return []tls.KeyShare{grease(), {Group: tls.X25519}, {Group: tls.CurveP256}}
+	case 3:
+		return []tls.KeyShare{grease(), grease(), {Group: tls.X25519}}
+	}
+	return []tls.KeyShare{grease(), {Group: tls.X25519}}
 }
 
 func fakePSK(r *rand.Rand, n int) *tls.FakePreSharedKeyExtension {
